@@ -80,9 +80,28 @@ class Model:
         exe, fuel = self.exe, self.fuel
         # the model recurses once per loop iteration: give it a deep stack
         self.p = subprocess.Popen(['bash', '-c', 'ulimit -s unlimited 2>/dev/null || ulimit -s 1000000 2>/dev/null; ulimit -v 6000000 2>/dev/null; exec "$0"', exe],
-                                  stdin=subprocess.PIPE, stdout=subprocess.PIPE, text=True, encoding='ascii', bufsize=1)
+                                  stdin=subprocess.PIPE, stdout=subprocess.PIPE, stderr=self._errfile(), text=True, encoding='ascii',
+                                  bufsize=1)
         if fuel:
             self.call(['fuel', str(fuel)])
+
+    def _errfile(self):
+        import tempfile
+        old = getattr(self, '_err', None)
+        if old is not None:
+            old.close()
+        self._err = tempfile.TemporaryFile(mode='w+')
+        return self._err
+
+    def _died_of_exhaustion(self, code):
+        """killed by a signal (stack), or the runtime's own out-of-memory panic under the address-space limit"""
+        if code is not None and code < 0:
+            return True
+        try:
+            self._err.seek(0)
+            return 'out of memory' in self._err.read()[-4000:]
+        except Exception:
+            return False
 
     def close(self):
         try:
@@ -107,9 +126,10 @@ class Model:
         reply = self.p.stdout.readline()
         if not reply:
             code = self.p.wait()
+            exhausted = self._died_of_exhaustion(code)
             self._start()
-            if code is not None and code < 0:
-                # killed by a signal (stack or memory exhausted): same meaning as fuel
+            if exhausted:
+                # stack or memory exhausted: same meaning as running out of time
                 self.timeouts += 1
                 return ['fuel', 'timeout']
             raise ModelError('model driver died on: ' + line[:200])
